@@ -22,7 +22,8 @@ HexDigit(n) == IF n < 10 THEN 48 + n ELSE 87 + n
 HexPoints(b) == [k \in 1..(2 * Len(b)) |-> IF k % 2 = 1 THEN HexDigit(HiNib(b[(k + 1) \div 2])) ELSE HexDigit(LoNib(b[k \div 2]))]
 UnHex(cp) == IF cp <= 57 THEN cp - 48 ELSE cp - 87
 HexBytes(p) == [k \in 1..(Len(p) \div 2) |-> UnHex(p[2 * k - 1]) * 16 + UnHex(p[2 * k])]
-CP437FromUnicode(p) == [k \in 1..Len(p) |-> (CHOOSE b \in 1..256 : CP437Table[b] = p[k]) - 1]
+\* a code point outside the table maps to 999 (no byte): the comparison then fails instead of the evaluation
+CP437FromUnicode(p) == [k \in 1..Len(p) |-> IF \E b \in 1..256 : CP437Table[b] = p[k] THEN (CHOOSE b \in 1..256 : CP437Table[b] = p[k]) - 1 ELSE 999]
 
 \* what the specification expects, in the harness's shape [st, out, rest]
 DecOut(r, show(_)) == IF r.ok THEN [st |-> "ok", out |-> show(r.val), rest |-> Len(r.rest), kind |-> ""]
